@@ -22,9 +22,9 @@ conditions are decidable and syntactic (`existsSide`, `forAllSide` below; `Expr.
   the theorems are conditional on the evaluation returning, and `C01_forall_empty_error` shows it never does then;
 * the quantified variable occurs nowhere else (not in the `lᵢ`, not selected).
 
-`C01_quant_tree_sound_complete_partial` extends the shape to and-TREES with any number of quantifiers, also to the left
-of other conjuncts (`Expr.Qt`). Not proved (left to the executable model + search): a conjunct evaluated AFTER a
-`for_all`, quantifiers below `or_` (F-C01-8 shows that is wrong in general), nested quantifiers.
+`C01_quant_tree_sound_complete_partial` extends the shape to and-TREES with any number of quantifiers on either side of
+other conjuncts (`Expr.Qt`). Not proved (left to the executable model + search): quantifiers below `or_` (F-C01-8 shows
+that is wrong in general), nested quantifiers, a quantified variable used outside its quantifier.
 -/
 namespace KrroodVerif.Eql
 
@@ -48,14 +48,13 @@ theorem C01_quant_sound_complete_partial (w : World) (q : SQuery) (c : SExpr)
   simpa using this
 
 /- Intended statement (full strength): the set equality for EVERY tree-shaped query with quantifiers. False for the code
-   as it is (F-C01-5/6/7/8/11). Proved: and-trees (`Expr.Qt`). Missing: a conjunct evaluated after a `for_all`, quantifiers
-   below `or_`/inside quantifiers, `exists` with a free variable that nothing binds before it. -/
+   as it is (F-C01-5/6/7/8/11). Proved: and-trees (`Expr.Qt`). Missing: quantifiers below `or_` / inside quantifiers (and
+   `exists` with a free variable that nothing binds before it, `for_all` whose true cells leave a node unbound: wrong). -/
 /-- **C01_quant_tree_sound_complete_partial.** The same for and-TREES (`Expr.Qt`, `Model/EqlQuantFrag.lean`): any nesting
 of `and_` over quantifier-free conditions of the cover fragment and ANY NUMBER of quantifiers `exists(y, φ)` /
 `for_all(y, φ)` / `not_` of them, quantifiers also to the LEFT of other conjuncts (an `exists` binds its variable for the
 conjuncts after it, which however must not use it; a later `exists` may rely on variables that an earlier conjunct —
-or an earlier `exists` body — binds), provided nothing is evaluated after a `for_all`. Contains the chain fragment
-(`ql_qt`). -/
+or an earlier `exists` body — binds); conjuncts may also follow a `for_all`. Contains the chain fragment (`ql_qt`). -/
 theorem C01_quant_tree_sound_complete_partial (w : World) (q : SQuery) (c : SExpr)
     (hc : q.cond = some c) (hQ : (build c).Qt [] [] = true)
     (hsel : selF1 q.sel = true) (hms : trigMultiSel q = false) (hsq : selNoQuant q.sel (build c) = true)
@@ -354,15 +353,25 @@ example : (∀ r, r ∈ [[Val.obj 1], [.obj 2], [.obj 2]] ↔ r ∈ [[Val.obj 1]
   ⟨C01_quant_tree_sound_complete_partial qnvW qnvT _ rfl (by decide) (by decide) (by decide) (by decide)
     (domsNodup_of_B (by decide)) (by decide) (by decide) (by decide) (by decide), by decide⟩
 
-/-- **C01_quant_need_last** (test of the fragment's boundary, NOT a finding). A conjunct to the RIGHT of a `for_all` is
-rejected by `Expr.Qt`: nothing is proved about it (the row that `for_all` passes on lists the candidate's keys twice);
-a quantified variable used by a later conjunct is rejected as well. The correspondence check still compares such queries
-with the specification. -/
-theorem C01_quant_need_last :
-    (build (.and (.forAll 3 (.cmp .gt (cexAttrA 3) (.lit 101 (.int 0)))) qnvL)).Qt [] [] = false ∧
+/-- non-vacuity of the TREE theorem, a conjunct AFTER `for_all` (test): `and_(for_all(u, x.a >= u.a), x.a < 2)` — the row
+`for_all` passes on lists `x` twice (the candidate's copy and the outer binding); `x = P1` -/
+def qnvTA : SQuery :=
+  ⟨[.var 0], some (.and (.forAll 4 (.cmp .ge (cexAttrA 0) (cexAttrA 4))) (.cmp .lt (cexAttrA 0) (.lit 103 (.int 2))))⟩
+
+example : ∀ r, r ∈ [[Val.obj 1]] ↔ r ∈ [[Val.obj 1]] :=
+  C01_quant_tree_sound_complete_partial qnvW qnvTA _ rfl (by decide) (by decide) (by decide) (by decide)
+    (domsNodup_of_B (by decide)) (by decide) (by decide) (by decide) (by decide)
+
+/-- **C01_quant_need_scope** (test of the fragment's boundary, NOT a finding). `Expr.Qt` accepts conjuncts on either side
+of a quantifier, but rejects a quantified variable used by another conjunct (nothing is proved about it; the harness
+assumes it does not happen either) and a quantifier beside `or_` or inside another quantifier. The correspondence check
+still compares such queries with the specification. -/
+theorem C01_quant_need_scope :
+    (build (.and (.forAll 3 (.cmp .gt (cexAttrA 3) (.lit 101 (.int 0)))) qnvL)).Qt [] [] = true ∧
     (build (.and (.exists_ 3 (.cmp .gt (cexAttrA 3) (.lit 101 (.int 1)))) qnvL)).Qt [] [] = true ∧
     (build (.and (.exists_ 3 (.cmp .gt (cexAttrA 3) (.lit 101 (.int 1))))
-      (.cmp .ge (cexAttrA 0) (cexAttrA 3)))).Qt [] [] = false := by
+      (.cmp .ge (cexAttrA 0) (cexAttrA 3)))).Qt [] [] = false ∧
+    (build (.exists_ 3 (.exists_ 4 (.cmp .gt (cexAttrA 3) (cexAttrA 4))))).Qt [] [] = false := by
   decide
 
 /-- **C01_quantProved_sound_complete.** The decidable predicate `quantProved w q` (`Model/EqlQuantFrag.lean`; the driver
@@ -394,7 +403,7 @@ theorem C01_quantProved_sound_complete (w : World) (q : SQuery) (h : quantProved
 findings do not -/
 example : quantProved qnvW qnvE = true ∧ quantProved qnvW qnvA = true ∧ quantProved qnvW qnvAc = true ∧
     quantProved qnvW qnvNE = true ∧ quantProved qnvW qnvNA = true ∧ quantProved qnvW qnvE0 = true ∧
-    quantProved qnvW qnvT = true ∧ quantProved c02nvW c02nvQ = false ∧
+    quantProved qnvW qnvT = true ∧ quantProved qnvW qnvTA = true ∧ quantProved c02nvW c02nvQ = false ∧
     quantProved cex5W cex5Q = false ∧ quantProved cex7W cex7Q = false ∧ quantProved cex7W cex8Q = false ∧
     quantProved cex11W cex11Q = false ∧
     ("F-C01-5" ∈ triggers qnvW qnvE ∧ "F-C01-5" ∉ triggersQ qnvW qnvE) ∧
